@@ -488,7 +488,68 @@ func (c *Ctx) bindLookup(ia *interpAnchors) {
 			c.fail("CTL-BIND", fname, "bound value comes from the dictionary-stack lookup", st.Pos(), "bind stores a value that was not obtained through the dictionary-stack lookup (load): user definitions shadowing an operator would be ignored")
 		}
 	})
-	c.check(n >= 2, "CTL-BIND", fname, "stores into the procedure", f.Pos(), fmt.Sprint(n), "bindProc no longer replaces elements of the procedure")
+	// both kinds of name objects are bound: for the element types Name and Operator there is a type
+	// test whose success leads (without going round the loop) to a store of the looked-up value
+	storeBlocks := map[*ssa.BasicBlock]bool{}
+	eachInstr(f, func(ins ssa.Instruction) {
+		if st, ok := ins.(*ssa.Store); ok {
+			if ix, ok := st.Addr.(*ssa.IndexAddr); ok {
+				if _, isParam := origin(ix.X).(*ssa.Parameter); isParam && !isNilConst(origin(st.Val)) {
+					v := origin(st.Val)
+					if mi, ok := v.(*ssa.MakeInterface); ok {
+						v = origin(mi.X)
+					}
+					if isLoadResult(v, ia.load) {
+						storeBlocks[st.Block()] = true
+					}
+				}
+			}
+		}
+	})
+	reaches := func(from *ssa.BasicBlock) bool {
+		seen := map[*ssa.BasicBlock]bool{}
+		stack := []*ssa.BasicBlock{from}
+		for len(stack) > 0 {
+			b := stack[len(stack)-1]
+			stack = stack[:len(stack)-1]
+			if seen[b] {
+				continue
+			}
+			seen[b] = true
+			if storeBlocks[b] {
+				return true
+			}
+			for _, s := range b.Succs {
+				if !s.Dominates(b) { // not along a back edge
+					stack = append(stack, s)
+				}
+			}
+		}
+		return false
+	}
+	bound := map[string]bool{}
+	eachInstr(f, func(ins ssa.Instruction) {
+		ta, ok := ins.(*ssa.TypeAssert)
+		if !ok || !ta.CommaOk {
+			return
+		}
+		nt, ok := ta.AssertedType.(*types.Named)
+		if !ok {
+			return
+		}
+		for _, r := range *ta.Referrers() {
+			ex, ok := r.(*ssa.Extract)
+			if !ok || ex.Index != 1 {
+				continue
+			}
+			for _, rr := range *ex.Referrers() {
+				if ifi, ok := rr.(*ssa.If); ok && reaches(ifi.Block().Succs[0]) {
+					bound[nt.Obj().Name()] = true
+				}
+			}
+		}
+	})
+	c.check(n >= 1 && bound["Name"] && bound["Operator"], "CTL-BIND", fname, "names and operator tokens in the procedure are both replaced by what the look-up gives", f.Pos(), fmt.Sprintf("%d stores", n), "bind no longer replaces the executable names (elements of type Name and of type Operator) of the procedure")
 }
 
 func isTypeAssertOfElem(v ssa.Value) bool {
